@@ -70,9 +70,7 @@ def main() -> int:
         return type(typ).__name__.replace("Type", "") or "?"
 
     def interesting(text: str) -> bool:
-        return any(k in text for k in ("builtins.set", "builtins.frozenset", "typing.AbstractSet", "typing.Set",
-                                       "typing.FrozenSet", "typing.MutableSet", "secmet.features", "secmet.record",
-                                       "secmet.locations", "typing.KeysView", "typing.ItemsView", "dict_keys"))
+        return text not in ("Any", "?", "NoneType", "None") and len(text) < 300
 
     # features' MRO so that rules can ask "is this a Feature"
     mros = {}
